@@ -69,6 +69,34 @@ class P:
                     p = p[:10]
             if len(p) <= 1400:
                 dgrams.append((a, p))
+        if rng.random() < 0.5:
+            # pool hygiene: a run of SHORT datagrams that publish nothing (every early exit of the worker), then LONG data
+            (a, tid), (t, o) = rng.choice(list(tpls.items()))
+            run = []
+            for _ in range(rng.choice([8, 16, 32])):
+                kind = rng.randrange(5)
+                if kind == 0:
+                    q = g.enc_msg([g.enc_set(g.tpl_set_id(o), g.enc_tpl(t, o))])           # template only (same definition)
+                elif kind == 1:
+                    q = g.enc_msg([g.enc_set(7777, bytes(rng.randrange(256) for _ in range(8)))])   # unknown template
+                elif kind == 2:
+                    q = bytes(rng.randrange(256) for _ in range(rng.choice([1, 5, 10])))     # not even a header
+                elif kind == 3:
+                    q = b"\x00\x07" + g.enc_msg([])[2:]                                      # wrong version
+                else:
+                    q = g.enc_msg([])                                                        # header only
+                run.append((a, q))
+            for _ in range(rng.choice([4, 8])):
+                body = b""
+                while len(body) + g.min_rec_len(t) < 1200:
+                    w = g.rand_record(t)[0]
+                    if len(body) + len(w) > 1300:
+                        break
+                    body += w
+                if body:
+                    run.append((a, g.enc_msg([g.enc_set(tid, body)])))
+            k = rng.randrange(len(dgrams) + 1)
+            dgrams[k:k] = [d for d in run if len(d[1]) <= 1400]
         return pre, dgrams
 
     def case(self, proto, g, rng):
@@ -81,6 +109,16 @@ class P:
             for _ in range(rng.choice([20, 100, 300])):
                 _, a, p = v5mod.PROP.gen_case(rng).split()
                 dgrams.append((bytes.fromhex(a[1:]), bytes.fromhex(p[1:])[:1400]))
+            if rng.random() < 0.5:
+                import struct as _st
+                a0 = rand_addr(rng)
+                run = [(a0, rng.choice([bytes(rng.randrange(256) for _ in range(rng.choice([1, 10, 23]))),           # too short
+                                        _st.pack(">HH", 9, 1) + bytes(20), _st.pack(">HH", 5, 0) + bytes(20),          # wrong version / no flows
+                                        _st.pack(">HH", 5, 3) + bytes(20 + 48)]))                                      # announces more flows than it has
+                       for _ in range(rng.choice([8, 16, 32]))]
+                big = [(a0, _st.pack(">HH", 5, 28) + bytes(rng.randrange(256) for _ in range(20 + 28 * 48))) for _ in range(rng.choice([4, 8]))]
+                k = rng.randrange(len(dgrams) + 1)
+                dgrams[k:k] = run + big
         else:
             pre, dgrams = [], []
             filt = rng.choice([[], [], [1], [2]])
@@ -90,6 +128,20 @@ class P:
                     p = mutate(rng, p)
                 if len(p) <= 1400:
                     dgrams.append((rand_addr(rng), p))
+            if rng.random() < 0.5:
+                # short datagrams that decode but publish nothing (only filtered / unsupported samples), short garbage, then long ones
+                only = {1: ["flow"], 2: ["counter"]}.get(filt[0] if filt else 0, [])
+                run = []
+                for _ in range(rng.choice([8, 16, 32])):
+                    kinds = [rng.choice(only + ["unknown", "unknown-enterprise"]) for _ in range(rng.choice([1, 1, 2]))]
+                    q = sfgen.gen_datagram(rng, kinds=kinds)[0] if rng.random() < 0.8 else bytes(rng.randrange(256) for _ in range(rng.choice([3, 20, 30])))
+                    run.append((rand_addr(rng), q))
+                for _ in range(rng.choice([4, 8])):
+                    q = sfgen.gen_datagram(rng, kinds=[rng.choice(["flow", "counter"]) for _ in range(6)])[0]
+                    if len(q) <= 1400:
+                        run.append((rand_addr(rng), q))
+                k = rng.randrange(len(dgrams) + 1)
+                dgrams[k:k] = [d for d in run if len(d[1]) <= 1400]
         maxlen = max([len(p) for _, p in dgrams] + [1])
         udpsize = rng.choice([1500, 1500, maxlen, 9000])
         line = "pipe %s F %s P %s G %s" % (proto, " ".join(map(str, filt)), " ".join("%s %s" % (hx(a), hx(p)) for a, p in pre),
@@ -119,7 +171,7 @@ class P:
                 pubs = [re.sub(rb'"ColTime":\d+\}$', b'"ColTime":0}', bytes.fromhex(x)).hex() for x in pubs]
             if self.nworkers[l] > 1:
                 pubs = sorted(pubs)
-            out.append("PUB %s UDP=%d DEC=%d" % (",".join(pubs), r["udp_count"], r["decoded_count"]))
+            out.append("PUB %s UDP=%d DEC=%d" % (",".join(pubs), r["udp_count"], r["decoded_count"]) + (" SHORTBUF=%d" % r["short_buffers"] if r.get("short_buffers") else ""))
         return out
 
     def post(self, lines, impl, model):
@@ -140,6 +192,17 @@ class P:
     def judge(self, line, impl, model):
         if impl.startswith("DRIVER-ERROR"):
             return impl
+        short = None
+        if " SHORTBUF=" in impl:
+            impl, short = impl.rsplit(" SHORTBUF=", 1)
+        v = self.judge2(line, impl, model)
+        if v is None and short and self.id == "C12":
+            return ("after this sequence the receive-buffer pool holds %s buffer(s) shorter than max-udp-size (%d): the receive loop reads the next "
+                    "datagrams into them, so a later longer datagram is truncated and what is published for it is not what its own octets decode to"
+                    % (short, self.cj[line]["udpsize"]))
+        return v
+
+    def judge2(self, line, impl, model):
         a, b = self.split(impl), self.split(model)
         if a is None or b is None:
             return "unparseable result: %r / %r" % (impl[:100], model[:100])
@@ -168,7 +231,8 @@ class P:
     def rule(self):
         return ("per case: one protocol pipeline, 1/2/4/16/64 real workers, 20-300 datagrams of mixed sizes from 1-4 exporters (decodable, "
                 "template-only, unknown-template, malformed; sFlow with type filters), pool buffers of 1500 octets, 9000, or exactly the "
-                "largest datagram; mirroring on in 30% of the IPFIX/sFlow cases; templates pre-installed so that the expected multiset is "
+                "largest datagram; in half of the cases a run of 8-32 short datagrams that publish nothing (each early exit of the worker) followed by "
+                "4-8 near-maximal ones (pool hygiene; the pool is inspected afterwards); mirroring on in 30% of the IPFIX/sFlow cases; templates pre-installed so that the expected multiset is "
                 "schedule independent; the outgoing queue is read only after all datagrams were processed. non-trivial = every case")
 
     def trusted_base(self):
